@@ -60,16 +60,19 @@ theorem C02_references (s : Inst) (room : Nat) (b : Batch) :
     · exact Or.inr ⟨e, he, hk, p, hp, hok.none_ok⟩
 
 /-- **C02 (deletion logs).** The deletion logs only gain validly signed records of the synchronised
-    room whose author held the needed right at the deletion date. -/
+    room whose author held the needed right at the deletion date. A node deletion record is judged against the tables
+    at its turn (`Turn`: the room definitions of the stage; of its rows, those that earlier records of the same answer
+    have not deleted — since /repo a395f05 every record of an answer is applied, a second record for a row that the
+    first one deleted needs the own-rows right only: it deletes nobody's row). -/
 theorem C02_deletion_logs (s : Inst) (room : Nat) (b : Batch) :
     (∀ t ∈ (syncDay Defects.none s room b).1.nodeLog, t ∉ s.nodeLog →
-      ∃ r ∈ b.nodeDels, r.entry = t ∧ NodeDelOk (st1 Defects.none s room b) room r) ∧
+      ∃ r ∈ b.nodeDels, r.entry = t ∧ ∃ si, Turn (st1 Defects.none s room b) si ∧ NodeDelOk si room r) ∧
     (∀ t ∈ (syncDay Defects.none s room b).1.edgeLog, t ∉ s.edgeLog →
       ∃ r ∈ b.edgeDels, r.entry = t ∧ EdgeDelOk s room r) := by
   constructor
   · intro t ht hnew
-    obtain ⟨r, hr, he, hok⟩ := day_new_node_log ht hnew
-    exact ⟨r, hr, he, hok.none_ok⟩
+    obtain ⟨r, hr, he, si, hti, hok⟩ := day_new_node_log ht hnew
+    exact ⟨r, hr, he, si, hti, hok.none_ok⟩
   · intro t ht hnew
     obtain ⟨r, hr, he, hok⟩ := day_new_edge_log ht hnew
     exact ⟨r, hr, he, hok.none_ok⟩
@@ -90,7 +93,7 @@ theorem C02_rows_when (d : Defects) (c : d.rowsChecked = true) (s : Inst) (room 
       (∃ n ∈ b.nodes, n.row.id = x.id ∧ localRow (st2 d s room b).nodes n.row.id = some x ∧
         NodeOk (st2 d s room b) room n)) ∧
     (∀ t ∈ (syncDay d s room b).1.nodeLog, t ∉ s.nodeLog →
-      ∃ r ∈ b.nodeDels, r.entry = t ∧ NodeDelOk (st1 d s room b) room r) := by
+      ∃ r ∈ b.nodeDels, r.entry = t ∧ ∃ si, Turn (st1 d s room b) si ∧ NodeDelOk si room r) := by
   refine ⟨?_, ?_, ?_⟩
   · intro x hx hnew
     obtain ⟨n, hn', hrow, hok⟩ := day_new_rows hx hnew
@@ -100,8 +103,8 @@ theorem C02_rows_when (d : Defects) (c : d.rowsChecked = true) (s : Inst) (room 
     · exact Or.inl ⟨r, hr, h1, h2, hok.of_checked c⟩
     · exact Or.inr ⟨n, hn', h1, h2, hok.of_checked c⟩
   · intro t ht hnew
-    obtain ⟨r, hr, he, hok⟩ := day_new_node_log ht hnew
-    exact ⟨r, hr, he, hok.of_checked c⟩
+    obtain ⟨r, hr, he, si, hti, hok⟩ := day_new_node_log ht hnew
+    exact ⟨r, hr, he, si, hti, hok.of_checked c⟩
 
 /-- **C02 (references), for every setting of the switches in which the reference checks are in place.** -/
 theorem C02_references_when (d : Defects) (c : d.refsChecked = true) (s : Inst) (room : Nat) (b : Batch) :
@@ -147,7 +150,7 @@ theorem C02_full_of (d : Defects) (s : Inst) (room : Nat) (b : Batch) (hn : Nodu
       (∃ e ∈ b.edges, edgeKeyEq e.row x = true ∧ ∃ p, edgeKeyEq e.row p = true ∧
         EdgeOk (st3 d s room b) room (some p) e)) ∧
     (∀ t ∈ (syncDay d s room b).1.nodeLog, t ∉ s.nodeLog →
-      ∃ r ∈ b.nodeDels, r.entry = t ∧ NodeDelOk (st1 d s room b) room r) ∧
+      ∃ r ∈ b.nodeDels, r.entry = t ∧ ∃ si, Turn (st1 d s room b) si ∧ NodeDelOk si room r) ∧
     (∀ t ∈ (syncDay d s room b).1.edgeLog, t ∉ s.edgeLog →
       ∃ r ∈ b.edgeDels, r.entry = t ∧ EdgeDelOk s room r) := by
   unfold dayGuardD at g
@@ -180,11 +183,21 @@ theorem C02_full_of (d : Defects) (s : Inst) (room : Nat) (b : Batch) (hn : Nodu
       cases hq
       exact ⟨hp, others hm⟩
   · intro t ht hnew
-    obtain ⟨r, hr, he, hok⟩ := day_new_node_log ht hnew
-    exact ⟨r, hr, he, hok.guarded (g2 r hr)⟩
+    obtain ⟨r, hr, he, si, hti, hok⟩ := day_new_node_log ht hnew
+    have hn1 : NodupIds (st1 d s room b).nodes := by rw [(st1_fields d s room b).2.1]; exact hn
+    exact ⟨r, hr, he, si, hti, hok.guarded (nodeDelGuardD_turn hn1 hti (g2 r hr))⟩
   · intro t ht hnew
     obtain ⟨r, hr, he, hok⟩ := day_new_edge_log ht hnew
     exact ⟨r, hr, he, hok.guarded (g1 r hr)⟩
+
+/-- **a row deleted in the room is not stored again (#18, the ingestion half of C11).** For every setting of the
+    switches in which the announced ids are gated by the deletion log (`announcedDeletedRequested = false`:
+    `Defects.none`, and the code since findings/C11-ingest-consults-deletion-log-v2.patch): a row that appears during a
+    synchronised day carries no node deletion record of the synchronised room — in the tables as they are after the
+    deletion records of that same day were applied, so a record and its row arriving together leave the row out. -/
+theorem C02_deleted_not_stored (d : Defects) (hd : d.announcedDeletedRequested = false) (s : Inst) (room : Nat) (b : Batch) :
+    ∀ x ∈ (syncDay d s room b).1.nodes, x ∉ s.nodes → deletedIn (st2 d s room b) room x.id = false :=
+  fun _ hx hnew => day_new_rows_not_deleted hd hx hnew
 
 /-! ## 2. statements that hold for the code as written (any setting of the switches) -/
 
@@ -221,8 +234,8 @@ theorem C02_batch_independent_references (d : Defects) (s : Inst) (room : Nat) (
 theorem C02_batch_independent_deletions (d : Defects) (s : Inst) (recs : List InNodeDel)
     (hd : (recs.map (·.entry.id)).Nodup) :
     deleteNodes d s recs =
-      (recs.filter fun r => nodeDelAccepted d s r.entry).foldl (fun st r => applyNodeDel st r.entry) s := by
-  unfold deleteNodes; rw [dedupDel_nodup hd]
+      (recs.filter fun r => nodeDelAccepted d s r.entry).foldl (fun st r => applyNodeDel st r.entry) s :=
+  deleteNodes_nodup_ids d s hd
 
 /-- **a rejected row leaves no trace**: taking it out of the batch gives the same state. -/
 theorem C02_rejected_row_no_trace (d : Defects) (s : Inst) (room : Nat) (b1 b2 : List InNode) (x : InNode)
@@ -431,7 +444,7 @@ theorem C02_partial (s : Inst) (room : Nat) (b : Batch) (hn : NodupIds s.nodes) 
       (∃ e ∈ b.edges, edgeKeyEq e.row x = true ∧ ∃ p, edgeKeyEq e.row p = true ∧
         EdgeOk (st3 Defects.asImplemented s room b) room (some p) e)) ∧
     (∀ t ∈ (syncDay Defects.asImplemented s room b).1.nodeLog, t ∉ s.nodeLog →
-      ∃ r ∈ b.nodeDels, r.entry = t ∧ NodeDelOk (st1 Defects.asImplemented s room b) room r) ∧
+      ∃ r ∈ b.nodeDels, r.entry = t ∧ ∃ si, Turn (st1 Defects.asImplemented s room b) si ∧ NodeDelOk si room r) ∧
     (∀ t ∈ (syncDay Defects.asImplemented s room b).1.edgeLog, t ∉ s.edgeLog →
       ∃ r ∈ b.edgeDels, r.entry = t ∧ EdgeDelOk s room r) :=
   C02_full_of Defects.asImplemented s room b hn g
@@ -451,7 +464,7 @@ theorem C02_partial_beforeFixes (s : Inst) (room : Nat) (b : Batch) (hn : NodupI
       (∃ r ∈ b.edgeDels, edgeMatches r.entry x = true ∧ EdgeDelOk s room r) ∨
       (∃ e ∈ b.edges, edgeKeyEq e.row x = true)) ∧
     (∀ t ∈ (syncDay Defects.beforeFixes s room b).1.nodeLog, t ∉ s.nodeLog →
-      ∃ r ∈ b.nodeDels, r.entry = t ∧ NodeDelOk (st1 Defects.beforeFixes s room b) room r) ∧
+      ∃ r ∈ b.nodeDels, r.entry = t ∧ ∃ si, Turn (st1 Defects.beforeFixes s room b) si ∧ NodeDelOk si room r) ∧
     (∀ t ∈ (syncDay Defects.beforeFixes s room b).1.edgeLog, t ∉ s.edgeLog →
       ∃ r ∈ b.edgeDels, r.entry = t ∧ EdgeDelOk s room r) := by
   obtain ⟨h1, h2, h3, h4, h5, h6⟩ := C02_full_of Defects.beforeFixes s room b hn g
@@ -481,7 +494,7 @@ theorem C02_rows_asImplemented (s : Inst) (room : Nat) (b : Batch) (hn : NodupId
       (∃ n ∈ b.nodes, n.row.id = x.id ∧ localRow (st2 Defects.asImplemented s room b).nodes n.row.id = some x ∧
         NodeOk (st2 Defects.asImplemented s room b) room n)) ∧
     (∀ t ∈ (syncDay Defects.asImplemented s room b).1.nodeLog, t ∉ s.nodeLog →
-      ∃ r ∈ b.nodeDels, r.entry = t ∧ NodeDelOk (st1 Defects.asImplemented s room b) room r) :=
+      ∃ r ∈ b.nodeDels, r.entry = t ∧ ∃ si, Turn (st1 Defects.asImplemented s room b) si ∧ NodeDelOk si room r) :=
   C02_rows_when Defects.asImplemented (by decide) s room b hn
 
 /-! ## 5. non-vacuity -/
@@ -508,5 +521,16 @@ example : nodeVerdict Defects.asImplemented world 10 fresh = true ∧
     nodeVerdict Defects.asImplemented world 10 (mkNode 72 10 1 300 3) = false := by decide
 -- the last-writer-wins filter: an older version of row 50 is not even requested
 example : nodeVerdict Defects.asImplemented world 10 (mkNode 50 10 1 150 1) = false := by decide
+
+
+-- two deletion records of one answer for the same row (deleted by two members on the same day): both are applied,
+-- in the order of the answer — key 1 deletes its own row 50, key 2's record then finds no local row and needs the
+-- own-rows right only; on its own, key 2's record would be refused (no all-rows right on `A`)
+example :
+    let r1 : InNodeDel := { entry := { room := 10, id := 50, ent := 1, mdate := 200, ddate := 300, key := 1 }, sigOk := true }
+    let r2 : InNodeDel := { entry := { room := 10, id := 50, ent := 1, mdate := 200, ddate := 310, key := 2 }, sigOk := true }
+    (deleteNodes Defects.asImplemented world [r1, r2]).nodeLog = [r1.entry, r2.entry] ∧
+    (deleteNodes Defects.asImplemented world [r1, r2]).nodes.all (·.id ≠ 50) = true ∧
+    deleteNodes Defects.asImplemented world [r2] = world := by decide
 
 end Discret.Ingest
